@@ -77,7 +77,9 @@ func checkWriterTable(m *Module, r *Report, rule, typ, field string, includeMapO
 	}
 	for name := range allowed {
 		if !seen[fmt.Sprintf("writer of %s.%s: %s", short, field, name)] {
-			r.unresolved(rule, fmt.Sprintf("writer of %s.%s: %s", short, field, name), "table entry has no matching writer in current source")
+			// fewer writers than allowed is not a who-may-write violation; the vacuity floor of the rule
+			// still fails when too few instances remain
+			r.add(rule, fmt.Sprintf("writer of %s.%s: %s", short, field, name), "", Info, "allowed writer no longer writes this field in current source")
 		}
 	}
 	return ws
